@@ -7,10 +7,11 @@ Driver requests for L3–L5 (container fragment):
     (roundtrip (F (item…) <endGap>))  →  (ok <text>) | (err <class>) | (uncovered <why>)
     (pieces    (F (item…) <endGap>))  →  (ok (t|c|w <text>)…) | (err <class>) | (uncovered <why>)
     (flatten   (F (item…) <endGap>))  →  (ok <text>)
-    (facts     (F …))                 →  (ok <orderOk> <beforeFlatB> <safe> <spacing nf> <tokens kept>)
+    (facts     (F …))                 →  (ok <orderOk> <beforeFlatB> <safe> <spacing nf> <tokens kept> <basic>)
     (norm      (F …))                 →  (ok <text> <cst>) for comment-free files: `File.norm`
 
     cst   ::= (l <kind> <text>) | (L (item…) <closeGap>) | (S <t|f> <recGap> (item…) <closeGap>)
+            | (P (item…) <closeGap>) | (A cst (gc…) <gap> cst)
     item  ::= (c <gap> <text>) | (e <gap> cst)
             | (b <gap> <name> (gc…) <g1> (gc…) <g2> cst (gc…) <g3>)
     gc    ::= (<gap> <text>)
@@ -38,6 +39,9 @@ partial def decCst : SExp → Option Cst
   | .list [.atom "L", .list its, .atom cg] => do pure (.list (← decItems its) (← decText cg))
   | .list [.atom "S", .atom r, .atom rg, .list its, .atom cg] => do
       pure (.set (r == "t") (← decText rg) (← decItems its) (← decText cg))
+  | .list [.atom "P", .list its, .atom cg] => do pure (.paren (← decItems its) (← decText cg))
+  | .list [.atom "A", f, .list cs, .atom g, a] => do
+      pure (.app (← decCst f) (← decGC cs) (← decText g) (← decCst a))
   | _ => none
 partial def decItems : List SExp → Option Items
   | [] => some .nil
@@ -61,6 +65,8 @@ partial def encCst : Cst → SExp
   | .leaf k t => .list [.atom "l", .atom (encKind k), sText t]
   | .list its cg => .list [.atom "L", .list (encItems its), sText cg]
   | .set r rg its cg => .list [.atom "S", sBool r, sText rg, .list (encItems its), sText cg]
+  | .paren its cg => .list [.atom "P", .list (encItems its), sText cg]
+  | .app f cs g a => .list [.atom "A", encCst f, encGC cs, sText g, encCst a]
 partial def encItems : Items → List SExp
   | .nil => []
   | .cmt g t rest => .list [.atom "c", sText g, sText t] :: encItems rest
@@ -110,7 +116,7 @@ def handle (req : SExp) : Option SExp :=
       else match f.parse with
         | .ok s => some (.list [.atom "ok", sBool f.orderOk, sBool s.beforeFlatB,
             sBool (safeGo false s.rebuildP), sBool (summ s.rebuildP).fileOk,
-            sBool (decide (toks s.rebuildP = f.codeTokens))])
+            sBool (decide (toks s.rebuildP = f.codeTokens)), sBool f.basic])
         | .error e => some (sErr e)
   | .list [.atom "norm", f] =>
     -- comment-free files: the tree of the output as the fixed-point theorem names it
@@ -118,6 +124,7 @@ def handle (req : SExp) : Option SExp :=
     | none => some (.list [.atom "bad-arg"])
     | some f =>
       if !f.covered then some (.list [.atom "uncovered", .atom "wf"])
+      else if !f.basic then some (.list [.atom "uncovered", .atom "not-basic"])
       else if !f.items.cf then some (.list [.atom "uncovered", .atom "comments"])
       else some (.list [.atom "ok", sText f.norm.flatten, encFile f.norm])
   | .list [.atom "flatten", f] =>
